@@ -15,12 +15,22 @@
   * `C04_map_order_irrelevant` the order in which a decoder lists map entries is irrelevant
   * `C04_yaml_merge_key`, `C04_yaml_merge_key_list`  YAML `<<` semantics
   * `C04_toml_array_of_tables` `[]map[string]any` ≡ `[]any` of maps
+  * `C04_yaml_merge_chained`, `C04_yaml_merge_expand`, `…_expand_lookup`  `<<` inside a merged
+                               mapping; merge keys at any depth against their expansion
+  * `C04_yaml_merge_equals_expanded`, `C04_yaml_merge_equals_json`  merge keys against the
+                               hand-expanded (JSON) form
+  * `C04_yaml_translate_ok_iff`, `…_total_on_plain`, `…_failures`  exactly when a YAML node tree
+                               loads, and with which error it does not
+  * `C04_toml_int_equals_yaml_int`, `C04_toml_float_equals_yaml_float`, `C04_three_formats_agree`
+                               one datum (`ym_Logical`), three readings, one value
+  (helpers for these: BklProofs/Lemmas/C04Yaml.lean, BklProofs/Lemmas/C04YamlLogical.lean)
 
   Helper lemmas and the definitions `hasMapAny`, `rput`, `rlookup`, `rlookupMaps` are in
   BklProofs/Lemmas/Stream.lean.  `(toString n).toInt? = some n` is `Int.toInt?_repr` of Lean's
   `Std.Data.String.ToInt`; no round-trip hypothesis is needed.
 -/
 import BklProofs.Lemmas.Stream
+import BklProofs.Lemmas.C04YamlLogical
 namespace Bkl
 
 /-! ## integers -/
@@ -310,5 +320,348 @@ theorem C04_yaml_merge_key_list_instance :
 
 theorem C04_toml_array_of_tables (ms : List (List (String × Raw))) :
     normalize (.listOfMaps ms) = normalize (.list (ms.map .map)) := normalize_listOfMaps ms
+
+/-! ## YAML merge keys, recursively (`<<` inside a merged mapping) -/
+
+/-- A merged mapping that itself contains a `<<` entry is expanded recursively.  For
+    `{pre0…, <<: {pre1…, <<: m2, post1…}, post0…}` (all other keys ordinary) the result has
+    distinct keys and looking a key up gives the outer explicit value (`l0`) if there is one,
+    else the inner mapping's explicit value (`l1`), else `m2`'s. -/
+theorem C04_yaml_merge_chained (pre0 post0 pre1 post1 : List (String × YNode)) (m2 : YNode)
+    (r2 l1 l0 : RFields)
+    (hpre0 : ∀ p ∈ pre0, p.1 ≠ "<<") (hpost0 : ∀ p ∈ post0, p.1 ≠ "<<")
+    (hpre1 : ∀ p ∈ pre1, p.1 ≠ "<<") (hpost1 : ∀ p ∈ post1, p.1 ≠ "<<")
+    (h2 : yamlTranslate m2 = .ok (.map r2))
+    (hl1 : yamlTranslatePairs (pre1 ++ post1) = .ok l1)
+    (hl0 : yamlTranslatePairs (pre0 ++ post0) = .ok l0) :
+    ∃ res, yamlTranslate (.mapping (pre0 ++
+        ("<<", .mapping (pre1 ++ ("<<", m2) :: post1)) :: post0)) = .ok (.map res) ∧
+      (res.map (·.1)).Nodup ∧
+      ∀ k, rlookup res k = match rlookup l0 k with
+        | some v => some v
+        | none => match rlookup l1 k with
+          | some v => some v
+          | none => rlookup r2 k := by
+  obtain ⟨res1, e1, _, k1⟩ := C04_yaml_merge_key pre1 post1 m2 r2 l1 hpre1 hpost1 h2 hl1
+  obtain ⟨res, e0, n0, k0⟩ := C04_yaml_merge_key pre0 post0 _ res1 l0 hpre0 hpost0 e1 hl0
+  refine ⟨res, e0, n0, fun k => ?_⟩
+  rw [k0 k, k1 k]
+
+/-- the form of the statement with the `<<` entries in front:
+    `outer = {<<: {<<: m2, ls1…}, ls0…}` -/
+theorem C04_yaml_merge_chained_front (ls0 ls1 : List (String × YNode)) (m2 : YNode)
+    (r2 l1 l0 : RFields)
+    (h0 : ∀ p ∈ ls0, p.1 ≠ "<<") (h1 : ∀ p ∈ ls1, p.1 ≠ "<<")
+    (h2 : yamlTranslate m2 = .ok (.map r2))
+    (hl1 : yamlTranslatePairs ls1 = .ok l1) (hl0 : yamlTranslatePairs ls0 = .ok l0) :
+    ∃ res, yamlTranslate (.mapping (("<<", .mapping (("<<", m2) :: ls1)) :: ls0)) = .ok (.map res) ∧
+      (res.map (·.1)).Nodup ∧
+      ∀ k, rlookup res k = match rlookup l0 k with
+        | some v => some v
+        | none => match rlookup l1 k with
+          | some v => some v
+          | none => rlookup r2 k :=
+  C04_yaml_merge_chained [] ls0 [] ls1 m2 r2 l1 l0 (fun _ h => nomatch h) h0
+    (fun _ h => nomatch h) h1 h2 hl1 hl0
+
+/-- non-vacuity: `{<<: {<<: {a: 0, b: 0, c: 0}, b: 1}, c: 2}` → a=0, b=1, c=2 -/
+example : ∃ res, yamlTranslate (.mapping (("<<", .mapping (("<<",
+      .mapping [("a", .scalar "!!str" "0" ""), ("b", .scalar "!!str" "0" ""),
+        ("c", .scalar "!!str" "0" "")]) :: [("b", .scalar "!!str" "1" "")])) ::
+      [("c", .scalar "!!str" "2" "")])) = .ok (.map res) ∧ (res.map (·.1)).Nodup ∧
+      ∀ k, rlookup res k = match rlookup [("c", .str "2")] k with
+        | some v => some v
+        | none => match rlookup [("b", .str "1")] k with
+          | some v => some v
+          | none => rlookup [("a", .str "0"), ("b", .str "0"), ("c", .str "0")] k :=
+  C04_yaml_merge_chained_front _ _ _ _ _ _ (by decide) (by decide) (by rfl) (by rfl) (by rfl)
+
+/-- Merge keys at any nesting depth.  `ym_expand` (BklProofs/Lemmas/C04Yaml.lean) inlines every
+    `<<` entry — a mapping, or a list of mappings of which earlier ones win — in front of the
+    explicit keys, recursively; it is `none` exactly when some `<<` value is neither.
+    * a tree that cannot be expanded is rejected by `yamlTranslate`;
+    * otherwise the expansion has no `<<` key anywhere (`ym_plain`), and either both trees are
+      rejected or both are loaded as the same value. -/
+theorem C04_yaml_merge_expand (n : YNode) :
+    (ym_expand n = none → ∃ e, yamlTranslate n = .error e) ∧
+    (∀ n', ym_expand n = some n' →
+      ym_plain n' = true ∧
+      ((∃ e e', yamlTranslate n = .error e ∧ yamlTranslate n' = .error e') ∨
+       (∃ v, (yamlTranslate n >>= normalize) = .ok v ∧
+          (yamlTranslate n' >>= normalize) = .ok v))) := by
+  refine ⟨ym_expand_none_fails n, fun n' h => ⟨ym_expand_plain n n' h, ?_⟩⟩
+  rcases ym_expand_rel n n' h with ⟨⟨e, he⟩, ⟨e', he'⟩⟩ | ⟨r, r', h1, h2, hn⟩
+  · exact Or.inl ⟨e, e', he, he'⟩
+  · exact Or.inr ⟨ym_norm r, ym_T_normalize n r h1, by rw [ym_T_normalize n' r' h2, hn]⟩
+
+/-- … key by key: when the tree is a mapping, so is its expansion, and every key holds the same
+    (normalised) value in both -/
+theorem C04_yaml_merge_expand_lookup (n n' : YNode) (a : RFields) (h : ym_expand n = some n')
+    (ha : yamlTranslate n = .ok (.map a)) :
+    ∃ b, yamlTranslate n' = .ok (.map b) ∧
+      ∀ k, (rlookup a k).map ym_norm = (rlookup b k).map ym_norm := by
+  rcases ym_expand_rel n n' h with ⟨⟨e, he⟩, _⟩ | ⟨r, r', h1, h2, hn⟩
+  · rw [ha] at he; cases he
+  · rw [ha] at h1; cases h1
+    cases n with
+    | mapping ps =>
+      rw [ym_expand] at h
+      cases hm : ym_expandMerges ps with
+      | none => rw [hm] at h; cases h
+      | some m =>
+        rw [hm] at h
+        cases hl : ym_expandLocals ps with
+        | none => rw [hl] at h; cases h
+        | some l =>
+          rw [hl] at h; cases h
+          obtain ⟨b, rfl⟩ := ym_T_mapping_shape _ r' h2
+          exact ⟨b, h2, (ym_norm_map_eq_iff a b).1 hn⟩
+    | scalar t v f =>
+      rw [ym_T_scalar] at ha
+      have := (ym_scalar_shape t v f _ ha).2.1
+      cases this
+    | seq items => obtain ⟨xs, _, hx⟩ := ym_T_seq_shape items _ ha; cases hx
+    | empty => rw [ym_T_empty] at ha; cases ha
+
+/-- `ym_expand` leaves trees without merge keys alone, and every tree `yamlTranslate` accepts
+    can be expanded -/
+theorem C04_yaml_expand_sanity (n : YNode) :
+    (ym_plain n = true → ym_expand n = some n) ∧
+    ((∃ r, yamlTranslate n = .ok r) → ∃ n', ym_expand n = some n') := by
+  refine ⟨ym_expand_of_plain n, fun hr => ?_⟩
+  have := ym_wt_expand n (by rw [← ym_T_ok]; exact (ym_ok_iff _).2 hr)
+  cases he : ym_expand n with
+  | none => rw [he] at this; cases this
+  | some n' => exact ⟨n', rfl⟩
+
+/-- non-vacuity of `C04_yaml_merge_expand`: a two-level chain and a list form, expanded -/
+example : ym_expand (.mapping [("c", .scalar "!!str" "2" ""),
+      ("<<", .mapping [("<<", .seq [.mapping [("a", .scalar "!!str" "0" "")],
+                                    .mapping [("a", .scalar "!!str" "9" ""),
+                                              ("b", .scalar "!!str" "0" "")]]),
+                       ("b", .scalar "!!str" "1" "")])]) =
+    some (.mapping [("a", .scalar "!!str" "9" ""), ("b", .scalar "!!str" "0" ""),
+      ("a", .scalar "!!str" "0" ""), ("b", .scalar "!!str" "1" ""),
+      ("c", .scalar "!!str" "2" "")]) := by
+  simp [ym_expand, ym_expandMerges, ym_expandLocals, ym_inline, ym_inlineSeq]
+example : ym_expand (.mapping [("<<", .scalar "!!str" "x" "")]) = none := by
+  simp [ym_expand, ym_expandMerges, ym_inline]
+
+/-- Which error is reported may differ between a tree and its expansion (the elements of a
+    `<<` list are translated first to last but merged last to first): here the tree fails with
+    the `!!int` syntax error, its expansion with the unknown tag. -/
+theorem C04_yaml_merge_expand_error_may_differ :
+    ∃ n n', ym_expand n = some n' ∧ yamlTranslate n = .error .other ∧
+      yamlTranslate n' = .error .invalidType := by
+  refine ⟨.mapping [("<<", .seq [.mapping [("a", .scalar "!!int" "zz" "")],
+      .mapping [("b", .scalar "!!frob" "" "")]])],
+    .mapping [("b", .scalar "!!frob" "" ""), ("a", .scalar "!!int" "zz" "")], ?_, ?_, ?_⟩
+  · simp [ym_expand, ym_expandMerges, ym_expandLocals, ym_inline, ym_inlineSeq]
+  · have hz : yamlScalar "!!int" "zz" "" = .error .other :=
+      ym_scalar_bad_int _ _ (parseInt64_none_of_bad_char "zz" 'z' (by decide) (by decide)
+        (by decide) (by decide) (by decide))
+    rw [yamlTranslate_mapping, ym_TM_cons_merge, ym_T_seq, ym_TL_cons, yamlTranslate_mapping,
+      ym_TM_cons_other _ _ _ _ (by decide), ym_TM_nil, s_bind_ok,
+      ym_TP_cons_other _ _ _ (by decide), ym_T_scalar, hz]
+    rfl
+  · have hb : yamlScalar "!!frob" "" "" = .error .invalidType :=
+      ym_scalar_unknown_tag _ _ _ (by decide) (by decide) (by decide) (by decide) (by decide)
+        (by decide)
+    rw [yamlTranslate_mapping, ym_TM_cons_other _ _ _ _ (by decide),
+      ym_TM_cons_other _ _ _ _ (by decide), ym_TM_nil, s_bind_ok,
+      ym_TP_cons_other _ _ _ (by decide), ym_T_scalar, hb]
+    rfl
+
+/-! ## YAML merge keys against the expanded form -/
+
+/-- After `normalize`, a tree with merge keys and its expansion (a tree without merge keys, which
+    is what one writes by hand) are the same value. -/
+theorem C04_yaml_merge_equals_expanded (n n' : YNode) (r : Raw) (h : ym_expand n = some n')
+    (hr : yamlTranslate n = .ok r) :
+    ym_plain n' = true ∧
+    ∃ v, (yamlTranslate n >>= normalize) = .ok v ∧ (yamlTranslate n' >>= normalize) = .ok v := by
+  refine ⟨ym_expand_plain n n' h, ?_⟩
+  rcases ym_expand_rel n n' h with ⟨⟨e, he⟩, _⟩ | ⟨r1, r', h1, h2, hn⟩
+  · rw [hr] at he; cases he
+  · exact ⟨ym_norm r1, ym_T_normalize n r1 h1, by rw [ym_T_normalize n' r' h2, hn]⟩
+
+/-- "YAML anchors / merge keys compared against their expanded JSON form": for data
+    `base`, `pre`, `post` (entry lists of format-independent values, `ym_Logical`, no key being
+    `<<`), the YAML mapping `{pre…, <<: base, post…}` is loaded as the same value as the JSON
+    object one gets by expanding the merge by hand (`ym_handExpand`: the entries of `base` that
+    are not overridden, then the explicit entries) — and that object has distinct keys when the
+    explicit keys and `base`'s keys are distinct. -/
+theorem C04_yaml_merge_equals_json (jf yf : Int → String) (base pre post : ym_LFields)
+    (hb : ym_okFields base = true) (hpre : ym_okFields pre = true) (hpost : ym_okFields post = true) :
+    (yamlTranslate (.mapping (ym_renderYamlFields yf pre ++
+        ("<<", ym_renderYaml yf (.map base)) :: ym_renderYamlFields yf post)) >>= normalize) =
+      normalize (ym_renderJson jf (.map (ym_handExpand base (pre ++ post)))) ∧
+    normalize (ym_renderJson jf (.map (ym_handExpand base (pre ++ post)))) =
+      .ok (ym_Logical.map (ym_handExpand base (pre ++ post))).val ∧
+    (((pre ++ post).map (·.1)).Nodup → (base.map (·.1)).Nodup →
+      ((ym_handExpand base (pre ++ post)).map (·.1)).Nodup) := by
+  refine ⟨ym_merge_equals_json jf yf base pre post hb hpre hpost, ?_,
+    fun he hbn => ym_handExpand_nodup base (pre ++ post) hbn he⟩
+  have hex : ym_okFields (pre ++ post) = true := by rw [ym_okFields_append, hpre, hpost]; rfl
+  exact (ym_three_formats jf yf _ (by rw [ym_Logical.ok]; exact ym_handExpand_ok _ _ hb hex)).1
+
+/-- non-vacuity: `{a: 1, <<: {a: 0, b: 2.5}, c: [x]}` against `{"b": 2.5, "a": 1, "c": ["x"]}` -/
+example : ym_okFields [("a", .int 0), ("b", .flt "2.5" "2.5")] = true ∧
+    ym_okFields [("a", .int 1)] = true ∧ ym_okFields [("c", .list [.str "x"])] = true ∧
+    ym_handExpand [("a", .int 0), ("b", .flt "2.5" "2.5")] ([("a", .int 1)] ++ [("c", .list [.str "x"])])
+      = [("b", .flt "2.5" "2.5"), ("a", .int 1), ("c", .list [.str "x"])] := by
+  have : parseInt64 "2.5" = none :=
+    parseInt64_none_of_bad_char "2.5" '.' (by decide) (by decide) (by decide) (by decide) (by decide)
+  refine ⟨?_, by decide, by decide, by simp [ym_handExpand]⟩
+  simp [ym_okFields, ym_Logical.ok, this, int64Min, int64Max]
+
+/-! ## exactly when a YAML document loads -/
+
+/-- the acceptable scalars, spelled out -/
+theorem C04_yaml_scalarOK_spec (t v f : String) :
+    ym_scalarOK t v f = true ↔
+      t = "!!str" ∨ t = "!!null" ∨ t = "!!timestamp" ∨
+      (t = "!!int" ∧ ∃ i, parseInt64 v = some i) ∨
+      (t = "!!float" ∧ f ≠ "") ∨
+      (t = "!!bool" ∧ v ∈ ["1", "t", "T", "TRUE", "true", "True",
+                            "0", "f", "F", "FALSE", "false", "False"]) := by
+  unfold ym_scalarOK
+  split
+  · simp [ym_boolLit, or_assoc]
+  · simp [Option.isSome_iff_exists]
+  · simp
+  · simp
+  · simp
+  · simp
+  · rename_i h1 h2 h3 h4 h5 h6
+    simp only [Bool.false_eq_true, false_iff, not_or, not_and]
+    exact ⟨h5, h4, h6, fun h => absurd h h2, fun h => absurd h h3, fun h => absurd h h1⟩
+
+/-- `yamlTranslate n >>= normalize` succeeds exactly on the well-typed trees (`ym_wt`): every
+    scalar acceptable (`C04_yaml_scalarOK_spec`), every `<<` value a mapping or a sequence of
+    mappings. -/
+theorem C04_yaml_translate_ok_iff (n : YNode) :
+    (∃ v, (yamlTranslate n >>= normalize) = .ok v) ↔ ym_wt n = true := by
+  rw [← ym_T_ok, ym_ok_iff]
+  constructor
+  · rintro ⟨v, hv⟩
+    cases hT : yamlTranslate n with
+    | error e => rw [hT] at hv; cases hv
+    | ok r => exact ⟨r, rfl⟩
+  · rintro ⟨r, hr⟩
+    exact ⟨_, ym_T_normalize n r hr⟩
+
+/-- On node trees built only from mappings (none of whose keys is `<<`), sequences and scalars,
+    all scalars being acceptable — `!!str`, `!!null`, `!!timestamp`, `!!int` with decimal int64
+    text, `!!float` with a float64 value, `!!bool` with a `strconv.ParseBool` literal — loading
+    succeeds; and on such trees it succeeds only if all scalars are acceptable. -/
+theorem C04_yaml_translate_total_on_plain (n : YNode) (hp : ym_plain n = true) :
+    (ym_scalarsOK n = true → ∃ v, (yamlTranslate n >>= normalize) = .ok v) ∧
+    ((∃ v, (yamlTranslate n >>= normalize) = .ok v) → ym_scalarsOK n = true) := by
+  rw [C04_yaml_translate_ok_iff, ym_plain_wt n hp]
+  exact ⟨id, id⟩
+
+/-- Every failure, classified: any error is `invalidType` or `other`; an unknown tag is
+    `invalidType`; `!!int` text outside the decimal int64 grammar, `!!float` text without a
+    float64 value and a `!!bool` that is no `ParseBool` literal are `other`; a `<<` whose value
+    (itself loadable, the earlier `<<` entries being fine) is neither a mapping nor a sequence of
+    mappings is `invalidType`. -/
+theorem C04_yaml_translate_failures :
+    (∀ n e, (yamlTranslate n >>= normalize) = .error e → e = .invalidType ∨ e = .other) ∧
+    (∀ t v f, t ∉ ["!!bool", "!!int", "!!float", "!!null", "!!str", "!!timestamp"] →
+      yamlTranslate (.scalar t v f) = .error .invalidType) ∧
+    (∀ v f, parseInt64 v = none → yamlTranslate (.scalar "!!int" v f) = .error .other) ∧
+    (∀ v, yamlTranslate (.scalar "!!float" v "") = .error .other) ∧
+    (∀ v f, ym_boolLit v = false → yamlTranslate (.scalar "!!bool" v f) = .error .other) ∧
+    (∀ pre post v r acc, yamlTranslateMerges pre [] = .ok acc → yamlTranslate v = .ok r →
+      ym_mergeable v = false →
+      yamlTranslate (.mapping (pre ++ ("<<", v) :: post)) = .error .invalidType) := by
+  refine ⟨?_, ?_, ?_, ?_, ?_, ?_⟩
+  · intro n e h
+    cases hT : yamlTranslate n with
+    | error e' => rw [hT] at h; cases h; exact ym_T_err n e hT
+    | ok r => rw [ym_T_normalize n r hT] at h; cases h
+  · intro t v f h
+    simp only [List.mem_cons, List.not_mem_nil, or_false, not_or] at h
+    rw [ym_T_scalar]
+    exact ym_scalar_unknown_tag t v f h.1 h.2.1 h.2.2.1 h.2.2.2.1 h.2.2.2.2.1 h.2.2.2.2.2
+  · intro v f h; rw [ym_T_scalar]; exact ym_scalar_bad_int v f h
+  · intro v; rw [ym_T_scalar]; exact ym_scalar_bad_float v
+  · intro v f h; rw [ym_T_scalar]; exact ym_scalar_bad_bool v f h
+  · intro pre post v r acc h1 h2 h3; exact ym_merge_bad_value pre post v r acc h1 h2 h3
+
+/-- non-vacuity: a plain tree that loads, and one instance of each failure class -/
+example : ym_plain (.mapping [("a", .seq [.scalar "!!int" "-12" "", .scalar "!!bool" "true" ""]),
+      ("b", .scalar "!!null" "~" "")]) = true := by decide
+example : ym_scalarsOK (.mapping [("a", .seq [.scalar "!!int" "-12" "", .scalar "!!bool" "true" ""]),
+      ("b", .scalar "!!null" "~" "")]) = true := by
+  have e : toString (-12 : Int) = "-12" := by decide
+  have : parseInt64 "-12" = some (-12) := e ▸ parseInt64_toString (-12) (by decide) (by decide)
+  simp [ym_scalarsOK, ym_scalarsOKList, ym_scalarsOKPairs, ym_scalarOK, this, ym_boolLit]
+example : "!!binary" ∉ ["!!bool", "!!int", "!!float", "!!null", "!!str", "!!timestamp"] := by decide
+example : parseInt64 "0x10" = none :=
+  parseInt64_none_of_bad_char "0x10" 'x' (by decide) (by decide) (by decide) (by decide) (by decide)
+example : ym_boolLit "yes" = false := by decide
+example : yamlTranslateMerges [("k", .empty)] [] = .ok [] ∧ yamlTranslate (.seq [.empty]) = .ok (.list [.null]) ∧
+    ym_mergeable (.seq [.empty]) = false := by
+  refine ⟨?_, ?_, by decide⟩
+  · rw [ym_TM_cons_other _ _ _ _ (by decide), ym_TM_nil]
+  · rw [ym_T_seq, ym_TL_cons, ym_T_empty, ym_TL_nil]; rfl
+
+/-! ## one value, three formats -/
+
+/-- for every int64 `n` and whatever float texts the decoders carry along, the JSON
+    (`json.Number`), YAML (`!!int`) and TOML (`int64`) readings are the same value -/
+theorem C04_toml_int_equals_yaml_int (n : Int) (fr fr' : String)
+    (h1 : int64Min ≤ n) (h2 : n ≤ int64Max) :
+    normalize (.jnum (toString n) fr) = normalize (.goInt64 n) ∧
+    (yamlScalar "!!int" (toString n) fr' >>= normalize) = normalize (.goInt64 n) ∧
+    (yamlTranslate (.scalar "!!int" (toString n) fr') >>= normalize) = normalize (.goInt64 n) ∧
+    normalize (.goInt64 n) = .ok (.int n) := by
+  obtain ⟨a, _, c⟩ := C04_int_exact n fr h1 h2
+  obtain ⟨_, b, _⟩ := C04_int_exact n fr' h1 h2
+  exact ⟨by rw [a, c], by rw [b, c], by rw [ym_T_scalar, b, c], c⟩
+
+/-- … and likewise the three float readings, for every float text `fr ≠ ""` -/
+theorem C04_toml_float_equals_yaml_float (text value fr : String) (hfr : fr ≠ "")
+    (ht : parseInt64 text = none) :
+    normalize (.jnum text fr) = normalize (.goFloat fr) ∧
+    (yamlTranslate (.scalar "!!float" value fr) >>= normalize) = normalize (.goFloat fr) ∧
+    normalize (.goFloat fr) = .ok (.flt fr) := by
+  have hfr' : fr.isEmpty = false := by simpa using hfr
+  obtain ⟨a, b, c⟩ := C04_float_path text value fr hfr'
+  exact ⟨by rw [a ht, c], by rw [ym_T_scalar, b, c], c⟩
+
+example : int64Min ≤ (-9223372036854775808 : Int) ∧ (-9223372036854775808 : Int) ≤ int64Max := by
+  decide
+example : ("1e+21" : String) ≠ "" ∧ parseInt64 "1e21" = none :=
+  ⟨by decide, parseInt64_none_of_bad_char "1e21" 'e' (by decide) (by decide) (by decide)
+    (by decide) (by decide)⟩
+
+/-- The value does not depend on the format.  For every representable datum `v`
+    (`ym_Logical`: null / bool / int64 / float / string / list / map; `v.ok`: integers in the
+    int64 range, floats with a non-integer literal and a float64 value, no map key `<<`) the
+    JSON reading (`json.Number`s, `ym_renderJson`), the TOML reading (`int64`, `float64`,
+    `[]map[string]any` for arrays of tables, `ym_renderToml`) and the YAML reading (a yaml.v3
+    node tree, `ym_renderYaml`, through `yamlTranslate`) all normalise to the one value `v.val`
+    — whatever float texts (`jf`, `yf`) the decoders attach to integers, and without any
+    assumption on duplicate map keys (the last entry wins in all three). -/
+theorem C04_three_formats_agree (jf yf : Int → String) (v : ym_Logical) (h : v.ok = true) :
+    normalize (ym_renderJson jf v) = .ok v.val ∧
+    normalize (ym_renderToml v) = .ok v.val ∧
+    (yamlTranslate (ym_renderYaml yf v) >>= normalize) = .ok v.val :=
+  ym_three_formats jf yf v h
+
+/-- non-vacuity: `{"n": -9223372036854775808, "xs": [{"a": 1.5}, {"a": null}], "s": [true, "t"]}`;
+    its TOML reading uses `[]map[string]any` for `xs` -/
+example : (ym_Logical.map [("n", .int (-9223372036854775808)),
+      ("xs", .list [.map [("a", .flt "1.5" "1.5")], .map [("a", .null)]]),
+      ("s", .list [.bool true, .str "t"])]).ok = true := by
+  have : parseInt64 "1.5" = none :=
+    parseInt64_none_of_bad_char "1.5" '.' (by decide) (by decide) (by decide) (by decide) (by decide)
+  simp [ym_Logical.ok, ym_okFields, ym_okList, this, int64Min, int64Max]
+example : ym_renderToml (.map [("xs", .list [.map [("a", .int 1)], .map [("a", .null)]])]) =
+    .map [("xs", .listOfMaps [[("a", .goInt64 1)], [("a", .null)]])] := by
+  simp [ym_renderToml, ym_renderTomlFields, ym_tomlTables]
 
 end Bkl
